@@ -185,6 +185,7 @@ func c11SrvExplore(c *ev.Ctx, k c11SrvCase, bound, dev int) {
 		return s
 	}, func(*sched.Scheduler) bool { return c.Violations() < 40 }, func() bool { return c.Expired("C11 server-level exploration") })
 	c.AddCov("states", int64(execs))
+	c.AddCov("traces_validated_against_impl", int64(execs))
 	c.ShardInfo(map[string]any{"scenario": fmt.Sprintf("server-level %v", k.Requests), "preemption_bound": bound, "deviation_bound": dev, "executions": execs, "complete": complete})
 	if !complete {
 		c.Cap(fmt.Sprintf("server-level scenario %v cut short", k.Requests))
